@@ -76,7 +76,7 @@ func genROps(r *runner.Rand, rb int) []ROp {
 		}
 		op := ROp{M: m, N: n}
 		if m == "writeto" {
-			op.Acc = r.Pick(0, 0, 1, r.Range(1, rb), 1<<20)
+			op.Acc = r.Pick(0, 0, 1, r.Range(1, rb), 1<<20, -2) // -2: the connection itself is the writer (echo)
 		}
 		if m == "read" && n <= 0 {
 			op.N = r.Range(0, 64)
